@@ -1023,3 +1023,102 @@ def gen_validate_case(rng, cid):
         names = sorted({p["name"] for p in pkgs})
         case["peers"] = {u: add_junk(rng, t, names) for u, t in case["peers"].items()}
     return case
+
+
+# ---------------------------------------------------------------------------
+# stores with nasty text and layout corner cases (C14)
+
+NASTY = ["plain", "", " leading and trailing ", "two\nlines", "tab\there", 'quote " inside', "single ' quote", "back\\slash",
+         "'''triple single'''", '"""triple double"""', "hash # not a comment", "bracket ] [ { }", "unicode é中\U0001F600",
+         "ctrl \x01\x1f\x7f end", "crlf\r\nline", "trailing newline\n", "\nleading newline", "x" * 130, "= equals = ", "key = 'value'",
+         "ends with backslash\\", "nul-free but odd   ​"]
+
+
+def nasty(rng):
+    r = rng.random()
+    if r < 0.7:
+        return rng.choice(NASTY)
+    return "".join(rng.choice(["a", " ", "\n", '"', "'", "\\", "#", "\t", "é", "]", "\x02"]) for _ in range(rng.randint(1, 12)))
+
+
+def gen_serde_case(rng, cid):
+    pkgs = gen_graph(rng)
+    store = gen_store(rng, pkgs, p_violation=0.3, with_imports=True, ncustom=rng.choice([0, 1, 2, 3, 4]))
+    crits = _crits(store)
+    # keep imports.lock in sync with config.imports (a locked load demands it)
+    for peer in store["imports"]:
+        store["lock"]["audits"].setdefault(peer, {"criteria": {}, "audits": {}, "wildcard_audits": {}})
+    for peer in list(store["lock"]["audits"]):
+        if peer not in store["imports"]:
+            del store["lock"]["audits"][peer]
+    for imp in store["imports"].values():
+        if rng.random() < 0.3:
+            imp["url"] = imp["url"] + ["https://second.example/" + "x" * rng.choice([5, 60, 100])]
+        if rng.random() < 0.3:
+            imp["exclude"] = ["zz-excluded-one", "zz-excluded-two"][:rng.choice([1, 2])]
+        if rng.random() < 0.4:
+            imp["criteria-map"] = {rng.choice(["theirs", "safe-to-deploy", "their-other"]): crit_list(rng, crits, allow_empty=True)}
+    for c in store["criteria"].values():
+        c["description"] = nasty(rng)
+        if rng.random() < 0.2:
+            del c["description"]
+            c["description-url"] = "https://example.com/" + rng.choice(["a", "b c", "x#y"])
+        if rng.random() < 0.2:
+            c["aggregated-from"] = ["https://src.example/a.toml"]
+
+    def files():
+        yield store
+        for f in store["lock"]["audits"].values():
+            yield f
+    for f in files():
+        for l in f.get("audits", {}).values():
+            for a in l:
+                r = rng.random()
+                if r < 0.5:
+                    a["notes"] = nasty(rng)
+                elif r < 0.6:
+                    a.pop("notes", None)
+                if rng.random() < 0.5:
+                    a["who"] = [nasty(rng) for _ in range(rng.choice([1, 1, 2, 3]))]
+                if rng.random() < 0.15:
+                    a["aggregated-from"] = [f"https://older{k}.example/a.toml" for k in range(rng.choice([1, 2]))]
+                if rng.random() < 0.2:
+                    a["criteria"] = (crits * 3)[:rng.choice([4, 6, 8])]     # long arrays (wrapping threshold)
+        for l in f.get("wildcard_audits", {}).values():
+            for w in l:
+                if rng.random() < 0.5:
+                    w["notes"] = nasty(rng)
+                if rng.random() < 0.4:
+                    w["who"] = [nasty(rng)]
+                if rng.random() < 0.3:
+                    w["renew"] = rng.random() < 0.5
+        for l in f.get("trusted", {}).values():
+            for w in l:
+                if rng.random() < 0.5:
+                    w["notes"] = nasty(rng)
+    for l in store["exemptions"].values():
+        for e in l:
+            if rng.random() < 0.5:
+                e["notes"] = nasty(rng)
+            elif rng.random() < 0.3:
+                e.pop("notes", None)
+    for p in store["policy"].values():
+        if rng.random() < 0.4:
+            p["notes"] = nasty(rng)
+    for l in store["lock"]["publisher"].values():
+        for p in l:
+            p["user-login"] = rng.choice(["user1", "o'neil", "a#b", nasty(rng).replace("\n", " ") or "x"])
+            r = rng.random()
+            if r < 0.5:
+                p["user-name"] = nasty(rng)
+            elif r < 0.7:
+                p["user-name"] = None
+    # a git-revision exemption and audit
+    if rng.random() < 0.5:
+        n = sorted({p["name"] for p in pkgs})[0]
+        store["exemptions"].setdefault(n, []).append({"version": "1.2.3@git:" + GITREV, "criteria": ["safe-to-run"], "notes": "git"})
+        store["audits"].setdefault(n, []).append({"kind": "delta", "from": "1.2.3", "to": "1.2.3@git:" + GITREV,
+                                                  "criteria": ["safe-to-deploy"], "notes": "git delta"})
+    if rng.random() < 0.3:
+        store["default-criteria"] = rng.choice(crits)
+    return finalize({"id": cid, "kind": "serde", "store_struct": store})
